@@ -23,6 +23,7 @@ type genProfile struct {
 	multiTarget    bool
 	fOnly          bool
 	nilRounds      bool
+	stallFirst     bool // half of the cases begin with a stalled consumer
 	concVoting     bool // concurrent groups: mostly overlapping multi-target votes at the voting round
 }
 
@@ -238,6 +239,14 @@ func genOp(t *rapid.T, cfg simCfg, p genProfile, depth int) Op {
 func genCase(t *rapid.T, p genProfile) simCase {
 	cfg := genCfg(t, p)
 	ops := rapid.SliceOfN(rapid.Custom(func(t *rapid.T) Op { return genOp(t, cfg, p, 0) }), p.minOps, p.maxOps).Draw(t, "ops")
+	if p.stallFirst {
+		switch rapid.IntRange(0, 3).Draw(t, "stallfirst") {
+		case 0:
+			ops = append([]Op{{K: "stall", Who: 0, On: true}}, ops...)
+		case 1:
+			ops = append([]Op{{K: "stall", Who: 1, On: true}}, ops...)
+		}
+	}
 	return simCase{Cfg: cfg, Ops: ops}
 }
 
